@@ -6,6 +6,7 @@ import RjModel.Lemmas.SyncLemmas
 import RjModel.Lemmas.ListingLemmas
 import RjModel.Lemmas.FilteredListing
 import RjModel.Lemmas.DoerLemmas
+import RjModel.Lemmas.ComposeLemmas
 /-! # C01 — a successful sync makes the destination a mirror of the source
 
 What is proved (for every tree pair, arrival order and poll schedule):
@@ -386,6 +387,95 @@ example :
       decide (fs'.get ["R".toList, "d".toList, "f".toList] = some (.file [7, 8] (.at 9))) &&
       decide (fs'.get ["R".toList, "l".toList] = some (.symlink (utf8 "a/b".toList)))
     | _ => false) = true := by
+  decide
+
+/-! ### composition: the doer model executing the boss's command trace -/
+
+/-- **The commands of a sync, executed by the doer model, are `syncDest`.**  Take the plan of `syncDest` and
+spell it as the boss's destination trace: one `DeleteFile` / `DeleteSymlink` / `DeleteFolder` per planned deletion
+(reverse listing order), the `Marker` that separates the phases, then per planned copy `CreateFolder`,
+`CreateSymlink` or the file's parts as `CreateOrUpdateFile` commands - **cut into parts in any way** (`parts`;
+every part but the last with `more_to_follow`, the time stamp with the last).  Run through `exec_command` of the
+doer model from an idle doer whose root is set, this trace ends in exactly the file system `syncDest` computes:
+no error response, no file left in progress, and never one of the outcomes outside the model (`escape`: the
+kernel would follow a link; `panic`; a path that is not root-relative).  This removes "the operations of
+`syncDest` are what the doer executes" from the bridge lemmas: it is one theorem for whole traces, chunked
+files included (`exec_fileCmds`: any chunking is `File::create` + one `write_all` + `set_file_mtime`). -/
+theorem C01_doer_trace_is_syncDest (k : ChunkCfg) (keepOf : List FilterSpec → String → Bool) (kd ks : FPath → SymKind)
+    (parts : FPath → List (List UInt8) × List UInt8) (abs : List Comp) (r : FPath) (ph : Phase)
+    (src : FPath → Option SEntry) (ls : List (FPath × SEntry)) (ld : List (FPath × Node)) (fs fs2 : FS)
+    (hgd : ∀ x ∈ ld, GoodPath x.1) (hgc : ∀ x ∈ ls, GoodPath x.1)
+    (hparts : ∀ x ∈ ls, ∀ b m, x.2 = .file b m → (parts x.1).1.flatten ++ (parts x.1).2 = b)
+    (h : syncDest fs r src ls ld = .ok fs2) :
+    execCmds k keepOf (idle fs abs r)
+        ((planDel src ld).map (delCmdOf kd) ++ (.marker ph :: (planCpy (fun p => fs.get (r ++ p)) ls).flatMap (cpyCmdsOf ks parts)))
+      = (idle fs2 abs r,
+         List.replicate (planDel src ld).length [] ++
+           ([.marker] :: List.replicate ((planCpy (fun p => fs.get (r ++ p)) ls).flatMap (cpyCmdsOf ks parts)).length []), none) :=
+  exec_trace_syncDest k keepOf kd ks parts abs r ph src ls ld fs fs2 hgd hgc hparts h
+
+/-- the spelling is the boss model's: `deleteCmd` on the listed details of a destination node, and the chunk
+commands `chunkCmd` of `copy_file` for a source stream that ends with its last part (what `C01_delete_trace` /
+`C01_copy_trace` show the boss to send) -/
+theorem C01_trace_spelling (k : SymKind) (p : FPath) (n : Node) (hn : n ≠ .special)
+    (ps : String) (init : List (List UInt8)) (last : List UInt8) (m : Int) :
+    deleteCmd (pathStr p) (dOfNode k n) = delCmdOf (fun _ => k) (p, n) ∧
+    (init.map (fun c => (c, true)) ++ [(last, false)]).map (fun ch => chunkCmd ps ch.1 m ch.2) = fileCmds ps init last m :=
+  ⟨by cases n with
+      | file b mt => cases mt <;> rfl
+      | folder => rfl
+      | symlink t => rfl
+      | special => exact absurd rfl hn,
+   chunkCmds_eq ps init last m⟩
+
+/-- **Mirror, for every source tree and every destination tree, by commands**: as `C01_mirror_two_trees`, but the
+destination is changed by the doer model executing the command trace (names are names: no component is empty,
+`.`, `..` or holds a slash - what a directory listing can return). -/
+theorem C01_mirror_two_trees_by_commands (S D : FS) (rs rd : FPath) (fS fD : Nat)
+    (hS : SrcTreeOk S rs fS) (hD : D.Wf)
+    (hroot : D.get rd = some .folder) (hanc : ∀ k, k < rd.length → D.get (rd.take k) = some .folder)
+    (hclosed : ∀ p, p ≠ [] → D.get (rd ++ p) ≠ none → D.get (rd ++ p.dropLast) = some .folder)
+    (hfuel : ∀ p, D.get (rd ++ p) ≠ none → p.length ≤ fD)
+    (k : ChunkCfg) (keepOf : List FilterSpec → String → Bool) (kd ks : FPath → SymKind)
+    (parts : FPath → List (List UInt8) × List UInt8) (abs : List Comp) (ph : Phase)
+    (hgd : ∀ x ∈ (listNodes D fD rd).map (fun e => (e.1.drop rd.length, e.2)), GoodPath x.1)
+    (hgc : ∀ x ∈ lsOfFS S rs fS, GoodPath x.1)
+    (hparts : ∀ x ∈ lsOfFS S rs fS, ∀ b m, x.2 = .file b m → (parts x.1).1.flatten ++ (parts x.1).2 = b) :
+    ∃ D' outs,
+      execCmds k keepOf (idle D abs rd)
+        ((planDel (srcOfFS S rs) ((listNodes D fD rd).map fun e => (e.1.drop rd.length, e.2))).map (delCmdOf kd) ++
+          (.marker ph :: (planCpy (fun p => D.get (rd ++ p)) (lsOfFS S rs fS)).flatMap (cpyCmdsOf ks parts)))
+        = (idle D' abs rd, outs, none) ∧
+      (∀ o ∈ outs, o = [] ∨ o = [.marker]) ∧
+      (∀ q, ¬ rd <+: q → D'.get q = D.get q) ∧
+      D'.get rd = some .folder ∧
+      ∀ p, p ≠ [] → MirrorAt D D' rd p (srcOfFS S rs p) := by
+  obtain ⟨D', h, h1, h2, h3⟩ := C01_mirror_two_trees S D rs rd fS fD hS hD hroot hanc hclosed hfuel
+  refine ⟨D', _, C01_doer_trace_is_syncDest k keepOf kd ks parts abs rd ph _ _ _ D D' hgd hgc hparts h, ?_, h1, h2, h3⟩
+  intro o ho
+  simp only [List.mem_append, List.mem_replicate, List.mem_cons] at ho
+  rcases ho with ⟨-, rfl⟩ | rfl | ⟨-, rfl⟩
+  · left; rfl
+  · right; rfl
+  · left; rfl
+
+/-- Non-vacuity of the composition: a stale file, a link and a file sent in three parts (one of them empty) -/
+example :
+    let fs0 : FS := ⟨[(["R".toList], .folder), (["R".toList, "old".toList], .file [1] (.at 5)),
+      (["R".toList, "l".toList], .symlink (utf8 "b".toList))]⟩
+    let src : FPath → Option SEntry := fun p =>
+      if p = ["f".toList] then some (.file [7, 8, 9] 4) else if p = ["l".toList] then some (.link (readLinkB (utf8 "a//b/".toList))) else none
+    let ls : List (FPath × SEntry) := [(["f".toList], .file [7, 8, 9] 4), (["l".toList], .link (readLinkB (utf8 "a//b/".toList)))]
+    let ld : List (FPath × Node) := [(["old".toList], .file [1] (.at 5)), (["l".toList], .symlink (utf8 "b".toList))]
+    let parts : FPath → List (List UInt8) × List UInt8 := fun _ => ([[7], [], [8]], [9])
+    (match syncDest fs0 ["R".toList] src ls ld with
+     | .ok fs' =>
+        let r := execCmds ⟨4, 2, 16, 2⟩ (fun _ _ => true) (idle fs0 [] ["R".toList])
+          ((planDel src ld).map (delCmdOf fun _ => .unknown) ++
+            (.marker .copying :: (planCpy (fun p => fs0.get (["R".toList] ++ p)) ls).flatMap (cpyCmdsOf (fun _ => .unknown) parts)))
+        decide (r.1.fs.get ["R".toList, "f".toList] = fs'.get ["R".toList, "f".toList]) &&
+        decide (r.1.fs.get ["R".toList, "f".toList] = some (.file [7, 8, 9] (.at 4))) && decide (r.2.2 = none)
+     | _ => false) = true := by
   decide
 
 end Rj.C01
